@@ -21,7 +21,7 @@ class Rec:
     self.serial = serial
 
   def __repr__(self):
-    return f'<Rec {self.stub}#{self.serial}>'
+    return f'<Rec {self.stub}>'
 
 
 class StubObj:
